@@ -50,7 +50,8 @@ type PluginSpec struct {
 	NilHandler     bool             `json:"nil_handler,omitempty"`
 	HandlerNotifOn int              `json:"handler_notif_on,omitempty"` // 1-based handler call of a session; 0 = never
 	HandlerNotif   *NotifSpec       `json:"handler_notif,omitempty"`
-	SleepNs        map[string]int64 `json:"sleep_ns,omitempty"` // caps, open, est, upd, close
+	SleepNs        map[string]int64 `json:"sleep_ns,omitempty"` // caps, open, est, upd, close: virtual sleep inside the callback (only for scripts without API calls, see point)
+	SpinUs         map[string]int64 `json:"spin_us,omitempty"`  // same keys: real-time busy wait inside the callback
 	WriteInEst     []hx.Hex         `json:"write_in_est,omitempty"`
 	WriteInUpd     []hx.Hex         `json:"write_in_upd,omitempty"` // written from inside the first handler call of a session
 	WriteInClose   []hx.Hex         `json:"write_in_close,omitempty"`
@@ -194,16 +195,22 @@ func New(routerID string, pointDelays []int64) (*World, error) {
 	return w, nil
 }
 
+// point is the schedule-point callback. The delay is a real-time busy wait
+// (d x ~4 microseconds), not a virtual sleep: a goroutine blocked on
+// Server.mu is not durably blocked, so virtual time cannot advance while one
+// exists, and a virtual sleep here would wedge the bubble artificially
+// whenever an API call contends for the mutex.
 func (w *World) point(name string) {
 	i := w.pointCalls.Add(1) - 1
 	d := w.pointDelays[int(i)%len(w.pointDelays)]
 	if d <= 0 {
 		return
 	}
-	w.pointPending.Add(1)
-	time.Sleep(time.Duration(d))
-	w.pointPending.Add(-1)
+	Spin(d * 4)
 }
+
+// Spin busy-waits in real time (see memnet.Spin).
+func Spin(us int64) { memnet.Spin(us) }
 
 // Options converts a PeerSpec into corebgp peer options.
 func Options(p PeerSpec) []corebgp.PeerOption {
@@ -437,6 +444,9 @@ type plugin struct {
 func (p *plugin) sleep(which string) {
 	if d := p.ps.spec.Plugin.SleepNs[which]; d > 0 {
 		time.Sleep(time.Duration(d))
+	}
+	if us := p.ps.spec.Plugin.SpinUs[which]; us > 0 {
+		Spin(us)
 	}
 }
 
